@@ -85,6 +85,24 @@ CHECKS = [
        "Kernel-checked: decode(encode)=id for every opcode and operand list that fits the declared widths (unbounded), the VM's inline operand reads equal the DEFINITIONS layout, From<u8> inverts the "
        "discriminant. Tables regenerated from the Rust source on every run; make/lookup/read_operands compared on every opcode byte and an operand sweep.",
        "The compiler's overflow check (fix fea076a) is exercised by limit programs (locals, arguments, captures, jump distance; constants/globals in the thorough tier). Open: compile_rejects_overflow as a theorem on the compiler model."),
+    _c("C15", "Lean theorems on the packet model (parse / cache / serialise of every header) + differential run of the real GetProp/Dollar/serialiser on frames truncated at every byte offset",
+       "Kernel-checked: for every header kind (pcap record, Ethernet, VLAN, IPv4 with options, IPv6, UDP, TCP with options) serialising the parsed header gives back its bytes; the serialiser walks the cache tree faithfully; "
+       "reads_preserve_bytes: for every frame (truncated and malformed inner headers included) and every script of reads and re-parses, each serialisation equals record header ++ captured bytes. "
+       "The real code (PcapPacket built through the verif_new hook, reads through GetProp / Dollar, Vec<u8>::from(&PcapPacket)) is run on every frame shape truncated at every offset x three script families and compared with the model and the specification.",
+       "The link type is assumed to be Ethernet. Seven defects found by this slice were repaired in /repo (see known_findings.json); their witnesses run as regression inputs."),
+    _c("C16", "Lean theorems tying every getter to the RFC bit layout table (translator-generated property table) + differential run with field sweeps",
+       "Kernel-checked: the property enum agrees with the generated table; every numeric getter of every layer returns the RFC bit slice of the header bytes (getter_is_slice, tcp.flags included), record-header getters the little-endian words, "
+       "MAC / IPv4 text is the reference rendering, the payload starts after the header length the header announces, a header running past the capture is an error object, $n and the named layer properties descend into the layer the type field selects (VLAN → IPv6 included) and yield null on a mismatch. "
+       "Field sweeps embed every value of a field in random surrounding bytes; Spec/Rfc.lean (layout table, dispatch table, reference printers) is the oracle.",
+       "Open: v6_text_is_reference as a theorem (a kernel `decide` over the 65 536 groups takes 19 minutes: exhaustive run instead); dollar_n as one theorem over `descend`."),
+    _c("C17", "Lean theorems on the setters (set/get, frame, invalid values, serialise-and-re-parse identities) + differential run of assignment scripts",
+       "Kernel-checked: an assignment changes exactly its field (set_frame), reading it back yields the value (set_get_in_range), out-of-range and wrong-kind values are refused or reduced to the field's width (set_checked_invalid, set_cast_invalid, set_wrong_kind, set_version_refused), "
+       "and the assigned header survives serialisation and re-parsing for every header kind (udp/pcap/vlan/eth/ipv4/ipv6/tcp _reparse, options included). Assignment scripts over every settable property x boundary / invalid values run through the real SetProp code and are judged byte-exactly against the RFC bit ranges.",
+       "Open: set_bytes_local as a single statement on bytes; address setters composed with the re-parse identities. After a structural assignment (type fields, lengths) nothing is demanded of the layers below."),
+    _c("C18", "Lean theorems on the address parsers/printers (round trips for all addresses, acceptance of every `::` placement, rejection classes) + exhaustive shape run",
+       "Kernel-checked: parse(print a) = a for every MAC, IPv4 and IPv6 address; every IPv6 text with one `::` at any position (leading and trailing included), at most 7 groups in all, any digit count and case is accepted with the reference value (v6_accepts_all); "
+       "texts with the wrong number of groups, out-of-range or malformed groups are rejected. The real parsers run on all 36 (position, length) shapes of `::`, both cases, 1-4 digits, and on malformed texts; the reference parsers of Spec/Rfc.lean are the oracle.",
+       "Open: one combined theorem tying v6_accepts_all to Rfc.parseV6 (both are compared on every run)."),
     _c("C19", "Lean theorems on the pcap reader/writer model and on the specification's codec + differential run of the real pcap_open/read/write on generated, truncated and corrupted files",
        "Kernel-checked: the little-endian global/record header codecs invert each other; pcap_read_all on the encoding of a well-formed file returns its records; repeated read_next returns them in order, then null; "
        "read_all(f, n) returns min(n, remaining) and leaves the rest; a file cut inside record k+1 yields exactly k records then null, a corrupt record header after k records yields those k then an error object; "
